@@ -89,6 +89,11 @@ pub mod implementations {
             bail!("neg requires one item on the local operating stack")
         };
 
+        // a reference into a list or an object (`-xs[i]`, `-obj.n`) is read, never negated in place
+        if let Primitive::HeapPrimitive(..) = val {
+            *val = val.move_out_of_heap_primitive_borrow()?.into_owned();
+        }
+
         val.negate()?;
 
         Ok(())
@@ -99,6 +104,10 @@ pub mod implementations {
         let Some(val) = ctx.get_last_op_item_mut() else {
             bail!("not requires one item on the local operating stack")
         };
+
+        if let Primitive::HeapPrimitive(..) = val {
+            *val = val.move_out_of_heap_primitive_borrow()?.into_owned();
+        }
 
         let Primitive::Bool(val) = val else {
             bail!("not can only negate booleans")
@@ -1162,13 +1171,14 @@ pub mod implementations {
 
         let arg = ctx.get_last_op_item().unwrap();
 
-        let Primitive::Bool(val) = arg else {
+        // the operand may be a reference into a list or an object (`flags[i] && f()`, `obj.ok || g()`)
+        let Primitive::Bool(val) = *arg.move_out_of_heap_primitive_borrow()? else {
             bail!("store_skip can only operate on bool (found {arg})");
         };
 
         if predicate == 1 {
             // skip if true
-            if *val {
+            if val {
                 ctx.signal(InstructionExitState::Goto(lines_to_jump));
                 return Ok(());
             }
@@ -1333,7 +1343,7 @@ pub mod implementations {
             bail!("assert can only operate on a single item");
         }
 
-        let item = ctx.pop().unwrap();
+        let item = ctx.pop().unwrap().move_out_of_heap_primitive()?;
 
         let result = item.equals(&bool!(true))?;
 
@@ -1384,7 +1394,7 @@ pub mod implementations {
             bail!("if statements require at least one entry in the local stack")
         }
 
-        let item = ctx.pop().unwrap();
+        let item = ctx.pop().unwrap().move_out_of_heap_primitive()?;
         ctx.clear_stack();
 
         let Primitive::Bool(b) = item else {
@@ -1410,7 +1420,7 @@ pub mod implementations {
             bail!("while statements require at least one entry in the local stack")
         }
 
-        let item = ctx.pop().unwrap();
+        let item = ctx.pop().unwrap().move_out_of_heap_primitive()?;
         ctx.clear_stack();
 
         let Primitive::Bool(b) = item else {
